@@ -94,3 +94,17 @@ Definition top_row_ok (r : bool * option (Z * bool * bool) * string * string) : 
   let '(d, tp, rest, txt) := r in String.eqb (select_head CMSSQL d (mkPage None None None tp) rest) txt.
 Lemma top_agrees : forallb top_row_ok x_top = true /\ (10 <=? List.length x_top)%nat = true.
 Proof. vm_compute. split; reflexivity. Qed.
+
+(* ---- every other @builder call (where, select, groupby, set, orderby, for_update, distinct, replace_table with an
+        equal / another / an absent table) leaves _limit, _offset, ClickHouse _limit_by and MSSQL _top alone, on the
+        receiver and on the copy: the model's COther ---- *)
+Lemma other_calls_keep : forallb (fun r : cls * kind * string * bool => snd r) x_keep = true
+  /\ (100 <=? List.length x_keep)%nat = true.
+Proof. vm_compute. split; reflexivity. Qed.
+
+(* ---- operands with their own limit/offset/limit_by/top: the set operation's tail is exactly its own window ---- *)
+Definition setop_operand_row_ok (r : cls * string) : bool :=
+  String.eqb (render_page (fst r) KSetOp (pg (Some 7%Z) (Some 5%Z))) (snd r).
+Lemma setop_operands_agree : forallb setop_operand_row_ok x_setop_operands = true
+  /\ (20 <=? List.length x_setop_operands)%nat = true.
+Proof. vm_compute. split; reflexivity. Qed.
